@@ -1,8 +1,8 @@
 package props
 
 import (
-	"go/types"
 	"fmt"
+	"go/types"
 	"regexp"
 	"strings"
 
@@ -24,10 +24,28 @@ func C02(p *core.Program, r *core.Report) {
 
 	c := core.NewCanon(p)
 	// ---- O1
-	for _, key := range []string{domutilPkg + ".WalkNodes", domutilPkg + ".TreeClone$1", domutilPkg + ".InnerText$1", "github.com/go-shiori/dom.Clone"} {
-		fn := mustInl(p, r, "O1", key)
-		if fn == nil {
-			continue
+	for _, key := range []string{domutilPkg + ".WalkNodes", domutilPkg + ".TreeClone/rec", domutilPkg + ".InnerText/rec", "github.com/go-shiori/dom.Clone"} {
+		var fn *ssa.Function
+		label := ""
+		if base, isRec := strings.CutSuffix(key, "/rec"); isRec {
+			// the recursive worker of the function (a closure or a named helper that calls itself)
+			owner := mustFunc(p, r, "O1", base)
+			if owner == nil {
+				continue
+			}
+			ws := recursiveWorkers(p, owner)
+			if len(ws) != 1 {
+				r.Undecided("O1", core.ShortKey(owner)+": the recursive worker", fmt.Sprintf("expected one self-recursive closure/helper below %s, found %d", core.ShortKey(owner), len(ws)))
+				continue
+			}
+			fn = p.Inlined(ws[0])
+			label = core.ShortKey(owner) + " (recursive worker)"
+		} else {
+			fn = mustInl(p, r, "O1", key)
+			if fn == nil {
+				continue
+			}
+			label = core.ShortKey(fn)
 		}
 		loops := findSiblingLoops(fn)
 		ok := len(loops) == 1
@@ -43,11 +61,11 @@ func C02(p *core.Program, r *core.Report) {
 			ok = ok && fwd && start
 			desc = c.Of(lp.phi)
 		}
-		r.Add("O1", core.ShortKey(fn)+" visits children first to last", p.Pos(fn.Pos()), ok, desc)
+		r.Add("O1", label+" visits children first to last", p.Pos(fn.Pos()), ok, desc)
 		for _, call := range core.Calls(fn, func(ci ssa.CallInstruction) bool {
 			return core.IsCallTo(ci, "(*golang.org/x/net/html.Node).InsertBefore", "github.com/go-shiori/dom.PrependChild", "github.com/go-shiori/dom.ReplaceChild")
 		}) {
-			r.Add("O1", core.ShortKey(fn)+" attaches children out of order", p.Pos(call.Pos()), false, core.CalleeKey(call))
+			r.Add("O1", label+" attaches children out of order", p.Pos(call.Pos()), false, core.CalleeKey(call))
 		}
 	}
 	r.Floor("O1", 4)
